@@ -7,8 +7,6 @@ ENV = "GOFLAGS=-mod=mod GOPROXY=off GOSUMDB=off GOTOOLCHAIN=local"
 NA = {
  'C11': 'accuracy of a Newton iteration run at a heuristic working precision: needs real-analysis error bounds that no SMT-discharged contract can carry (DESIGN 7/C11); its safety, frame, trap and special-value side facts are claimed under C03-C08',
  'C12': 'accuracy of truncated series with float-derived iteration counts and float initial estimates: no contract within reach of an SMT back end expresses |result-exp(x)| <= 1 ulp (DESIGN 7/C12)',
- 'C13': 'relation between formatter and parser through strconv/strings/fmt and byte-sequence reasoning: needs a sequence theory and library contracts that would amount to proving a model (DESIGN 7/C13)',
- 'C14': 'language membership over all byte strings and exact output text: same obstacle as C13 (DESIGN 7/C14)',
 }
 
 TRUST = ("trusted: the VC generator apdvc and go/ssa; z3 5.1.0 / z3 4.8.12 / cvc5 1.0.3 (unsat from any one accepted); "
@@ -37,6 +35,10 @@ CLAIMS = {
          "7/C09", "contract postconditions; three code branches must each establish the same formula"),
  'C10': ("QuoInteger and Rem contracts (truncated quotient, remainder with the dividend's sign, DivisionImpossible guard) and the division identity as a lemma over the two contracts.",
          "7/C10", "contract postconditions plus a lemma over contracts"),
+ 'C13': ("Partial, and labelled so: of the five clauses of the property only 'Compose(Decompose(d)) reproduces d' is decided. Decompose is proved to hand out parts that denote the decimal (form code, sign, exponent, and a coefficient slice whose big-endian value beval is the coefficient, on both the FillBytes and the Bytes path), Compose to install exactly the parts it is given (NaN quiet, infinities and NaNs with cleared coefficient and exponent, error iff the form code is unknown), BigInt.Bytes/FillBytes/SetBytes against assumed math/big contracts over the same uninterpreted beval; MarshalText's bytes are the specified text (see C14). The text round trips through the parser and SetFloat64/Float64 are NOT decided by this check (the parser's value semantics is not under contract; floats are not modelled): a change that only breaks those is not detected.",
+         "7/C13", "contract postconditions over an uninterpreted big-endian value function of byte slices (weakest-precondition VCs over go/ssa, z3/cvc5)"),
+ 'C14': ("The formatting half is decided for every decimal and every verb: Decimal.Append (and through it Text, String, MarshalText) is proved to produce exactly the bytes of a specification written from the property text - sign, NaN/sNaN/Infinity, plain notation iff exponent <= 0 and adjusted exponent >= -6 or a zero with exponent in [-2000,-1], otherwise one digit, optional fraction, E, a signed adjusted exponent; 'e'/'E' always scientific, 'f' always plain, unknown verbs as %x - over the decimal text of the coefficient and of the exponent (loop invariants for the zero padding, all buffer capacities, in place or reallocated). The digits themselves are math/big's and strconv's (assumed: uf_dchar(v, k) is the k-th character of the decimal text of v). The parsing half (acceptance set of SetString/NewFromString/UnmarshalText/Scan, no partial value) and Format's flags and width are NOT decided: only that a successful parse is well formed, that the mantissa carries no second sign and that the digit count handed to setExponent is the coefficient's.",
+         "7/C14", "byte-level contracts with segment predicates (quantified array facts with explicit triggers) over go/ssa VCs, z3 e-matching"),
  'C15': ("Decimal.Cmp equals the sign of the exact difference on all three code paths (equal exponents, digit-count shortcut, rescaled comparison); CmpTotal against a lexicographic specification; order lemmas over the specification (reflexive, antisymmetric, transitive via a magnitude-rescaling lemma, class order, zero iff identical).",
          "7/C15", "contract postconditions with pow10 lemma hints; order lemmas as pure SMT goals"),
  'C16': ("Layer 1: the inline fast paths of the BigInt methods proved against value/sign/representation contracts (zero is never negative) with exact wrap-around semantics; slow paths and the thin wrappers (bitwise, shifts, Div/Mod/DivMod, GCD, ModInverse, Exp, Sqrt ...) against assumed math/big contracts (uninterpreted operation functions, header-aliasing and negative-zero ghosts) and the unsafe-bridge contracts, the latter exercised by a bounded differential check on every run.",
